@@ -81,6 +81,7 @@ def run_property(prop, tier, seed, opts):
     failing = []
     samples = []
     group_status = {}
+    assumed_all = set()
     for r in results:
         c = r["contract"]
         if r.get("skipped"):
@@ -101,7 +102,16 @@ def run_property(prop, tier, seed, opts):
             "calls_under_contract": sorted(ex.called),
             "dropped_lines": [{"lines": [a, b], "why": why} for a, b, why in ex.dropped],
             "canary": canary.status if canary is not None else None,
+            "fragment_lines": getattr(ex, "fragment_lines", None),
+            "assumed_dependency_contracts": sorted(getattr(ex, "assumed", [])),
+            "havocked_expressions": sorted(getattr(ex, "havocked", [])),
+            "lemmas_used": sorted(getattr(ex, "lemmas_used", [])),
+            "unsupported_but_proved_unreachable": [f"line {ln}: {why[:100]}" for ln, why in getattr(ex, "unsupported", [])],
         })
+        for a_ in getattr(ex, "assumed", []):
+            assumed_all.add(f"assumed contract on a dependency ({c.name}): {a_}")
+        for h_ in getattr(ex, "havocked", []):
+            assumed_all.add(f"expression abstracted to an arbitrary value ({c.name}): {h_}")
         for o in r["obls"]:
             n_obl += 1
             solver_time += o.time
@@ -252,6 +262,7 @@ def run_property(prop, tier, seed, opts):
     trusted += ["prelude axioms: IntSeq (len/at/prefix/append/rev/cumsum/concat/subseq/update/rep), slice.indices, len(range), "
                 "floor div/mod witnesses, bisect -- validated against CPython this run on %d cases" % pv["cases"]]
     trusted += cfg.get("trusted", [])
+    trusted += sorted(assumed_all)
     cov = {
         "obligations": n_obl,
         "discharged": n_dis,
